@@ -139,6 +139,7 @@ def replay_lifecycle_case(case):
             return s
 
         f = None
+        wr = None          # ONE writer object, entered once per writer_with step
         tracker = OpenTracker(tmp)
         tracker.__enter__()
         for i, o in enumerate(rec["hist"]):
@@ -163,13 +164,17 @@ def replay_lifecycle_case(case):
                     f.__exit__(None, None, None)
                 elif op == "writer_with":
                     wpath = os.path.join(tmp, "out.tdms")
-                    if cfg["source"] == "path":
+                    if wr is not None:
+                        pass
+                    elif cfg["source"] == "path":
                         target, idx = wpath, cfg["index"] == "index"
                     else:
                         target = io.BytesIO()
                         idx = io.BytesIO() if cfg["index"] == "index" else False
                         caller_streams.extend([target] + ([idx] if idx else []))
-                    with TdmsWriter(target, index_file=idx) as w:
+                    if wr is None:
+                        wr = TdmsWriter(target, index_file=idx)
+                    with wr as w:
                         w.write_segment([ChannelObject("g", "c", np.arange(3, dtype=np.int32))])
                         during = lib_fds(tmp, exclude) | tracker.open_roles()
                         if o["raises"]:
